@@ -316,10 +316,12 @@ impl RetryStream {
     }
     /// Check all criteria for a retry and account for it.
     fn may_retry(&mut self) -> bool {
+        // `current_try` counts the requests already made, starting at zero: the request that just
+        // failed was number `current_try + 1` of the `tries` we are allowed.
         let tries_left = self
             .settings
             .tries
-            .saturating_sub(self.retry_state.current_try);
+            .saturating_sub(self.retry_state.current_try.saturating_add(1));
 
         self.retry_state.increment(&self.settings);
 
